@@ -331,3 +331,18 @@ PROPS["C04"] = {
         {"name": "c04.control", "engine": "rapid", "quick": R(2, 150), "thorough": R(4, 3000)},
     ],
 }
+
+PROPS["C10"] = {
+    "binary": "c10_connloss",
+    "level": "fault_enumeration",
+    "technique": "property-based fault injection (rapidcheck) over real loopback sockets: generated conforming server scripts x generated cut point per attempt (after any event, also mid-element, or on the established session) x up to three consecutive attempts; history invariants on client state, signals and outstanding requests",
+    "level_text": ("A scripted, protocol-conforming server (SASL PLAIN + restart + bind, optionally + stream management; SASL 2 + bind2, optionally + inline stream management; each optionally behind a see-other-host redirect to a second listener; resumption accepted or refused on later attempts) negotiates with a real QXmppClient (TLS disabled). "
+                   "For every attempt but the last the connection is cut at a generated event (connection accepted, header or element received or sent, half an element sent, or after establishment with a request outstanding), on the first or the redirected host. "
+                   "After each cut: state Disconnected, no session, not authenticated, no self-started reconnection, outstanding requests completed unless the session is resumable, connected() at most once per TCP connection and never before the server's final negotiation element; the last attempt must connect with a fresh stream header and a probe IQ must round-trip."),
+    "level_note": "Trusted: the scripted server in harness/c10_connloss.cpp. Quiescence is detected by idle windows on socket activity (a slow machine lengthens a case, it cannot create a violation except through the 3 s connect guard of the final attempt, which is why that guard is generous). Legacy XEP-0078 iq-auth is not among the property's scripts and is excluded.",
+    "rule": "Non-trivial: a cut strictly inside negotiation (after the header, before the session opens) or with a request outstanding. Distinct = the full history (script kind, redirect, per-attempt cut and the resulting event trace).",
+    "assumptions": ["automatic reconnection is switched off so that the harness owns the attempts"],
+    "subs": [
+        {"name": "c10.loss", "engine": "rapid", "quick": R(12, 200), "thorough": R(16, 4000)},
+    ],
+}
